@@ -169,7 +169,8 @@ def run(ctx):
         if real_v == ref:
             continue
         stats["disagreements_checked"] += 1
-        if f[2] and "K01d" in known:
+        sig = str(r["res"])
+        if f[2] and "K01d" in known and ("#&" in sig or r["res"][0] == "crash"):
             ctx.known_finding("id=K01d " + known["K01d"])
             stats["known_hits"]["K01d"] = stats["known_hits"].get("K01d", 0) + 1
             continue
